@@ -4,7 +4,12 @@ case = {"fields": [[name, [first, [cont, ...]]], ...],   the paragraph before th
         "key":    str,                                   field assigned to (existing name, the same
                                                          name in another letter case, or a new name)
         "value":  str,                                   the value tried
-        "origin": str,                                   how the paragraph object was obtained (ORIGINS)
+        "origin": str,                                   how the paragraph object was obtained (ORIGINS,
+                                                         or "text": parsed from the text given in "src")
+        "src":    {"text": str, "form": str,             origin "text" only (then "fields" is absent): the
+                   "reader": str, "index": int},         text, the input form it is handed over in
+                                                         (SRC_FORMS), constructor or iter_paragraphs
+                                                         (SRC_READERS; which of the paragraphs it gives)
         "cls":    str,                                   class of the paragraph (CLASSES; default Deb822)
         "route":  str}                                   how the value is assigned (ROUTES; default d[k] = v)
 
@@ -34,9 +39,28 @@ afterwards is read back from the paragraph and *that* is the value judged (rule 
 dump re-reads as one paragraph); a ValueError that leaves the paragraph unchanged is always allowed
 there (a single-line value does not combine with a multi-line one).
 
+Origin of the paragraph.  "Any paragraph" includes one the parser handed out.  With origin "text"
+the paragraph is parsed from a text over the property's alphabet - lines ended by LF, CR LF, a mix
+of both or CR, with or without a final terminator, CRs and other characters dropped inside lines -
+in one of ten input forms (str, bytes, StringIO, binary file, text-mode file with and without
+newline translation, lists of str / bytes lines with terminators, list of lines without, an
+iterator), by the constructor or by ``iter_paragraphs`` of the paragraph's class.  A text the parser
+refuses with ValueError, or in which it finds no paragraph, gives no case (label).  Otherwise the
+field names are taken from the object, the value is assigned and the outcome judged as above; the
+default parser setting is used for the re-read only if no field of the paragraph holds a
+whitespace-only continuation line.  The dump is, when it holds a CR, also re-read from a text-mode
+file.
+
 Field names whose value is a list of records *in the paragraph's own class* (Files in a Dsc, SHA256
-in a Release, ...) are outside the property (their value is not a string) and are skipped; the same
-names in any other class are ordinary fields and are generated on purpose.  Before the first case
+in a Release, ...) hold records, not strings.  As neighbours they are filled with two well-formed
+records.  A plain *string* assigned to such a field is inside the property as far as the statement
+reaches: the assignment may be refused (ValueError, paragraph unchanged) whatever the string looks
+like; if it is accepted and ``dump()`` raises, nothing is written and nothing can be read back
+(label ``dump-refused``; this is what the unchanged library does for every non-empty string); if
+the paragraph can be dumped, the rule must say "accept" for the string and the dump, re-read by
+``Deb822.iter_paragraphs`` (the own class's readers would take the string apart as records: not
+asked), must give one paragraph with the same names.  ``merge_fields`` is not used on such a field.
+The same names in any other class are ordinary fields and are generated on purpose.  Before the first case
 of a process one small document of every class with record fields is parsed, dumped and rebuilt by
 assignment, and before a case on such a name the name is used, in the case's spelling, in the
 classes where it carries records: a paragraph is judged in a process that has used the library
@@ -77,21 +101,51 @@ RULE = ("a case is (paragraph, key, value); enumerated: every string of 0..4 cha
         "this one (Files in a Release, SHA256 in a Dsc, ...: all 0..1-character strings x every such "
         "(class, name) pair, as the middle field and as a new key in another letter case), after ordinary "
         "use of every class in the same process. "
-        "Non-trivial = the value is rejected, or is accepted and contains a line boundary (LF or CR); "
+        "Origin of the paragraph as a dimension: the paragraph A,K,Z parsed from its text written with "
+        "LF, CR LF, alternating CR LF/LF (both ways) or CR line ends, with/without final terminator, in "
+        "10 input forms (str, bytes, StringIO, BytesIO, text-mode file translated/untranslated, list of "
+        "lines with/without terminators, list of bytes lines, iterator) by constructor or iter_paragraphs, "
+        "then every string of 0..2 characters over the 12 characters assigned; and the LF text of A,K,Z "
+        "with every string of 0..3 characters over the 12 characters inserted at the end of a first line, "
+        "inside a continuation line or at the end of the last line, parsed in every form (3-character "
+        "strings: one form each), then an ordinary value assigned to another/new field; one generated "
+        "case in four renders its paragraph with 1..3 cycling line ends, drops 0..2 tokens (CR-led "
+        "tokens and the value tokens) anywhere in the text and parses it in a drawn form. "
+        "Kind of field as a dimension: every string of 0..2 characters x each of the 34 (class, record "
+        "field of that class) pairs - Files on Dsc, MD5Sum on Release, Checksums-Sha1 on BuildInfo, "
+        "SHA1-History on PdiffIndex, ... - assigned as a plain string with the field absent, present with "
+        "records, or present under another spelling; generated cases do the same with token values; "
+        "record fields also occur as neighbours, holding records. "
+        "Non-trivial = the value is rejected, or is accepted and contains a line boundary (LF or CR), or "
+        "is a string for a record field, or the paragraph was parsed from a text containing CR; "
         "distinct = distinct canonical JSON of the case")
 ASSUMPTIONS = [
     "rejection rule restated by hand: reject iff the value ends in LF, or some line after the first is "
     "empty or does not start with SPACE/TAB, where lines end at LF, CR LF or CR (the str input form of "
     "the parser splits there); inside the property's character domain nothing else is a line boundary",
     "a continuation line counts as whitespace-only if it consists of SPACE/TAB once the value is split "
-    "at LF, CR LF and CR (the coarsest reading: the default parser setting is then not exercised)",
+    "at LF, CR LF and CR (the coarsest reading: the default parser setting is then not exercised); "
+    "every string value the paragraph holds after the assignment is looked at, not only the assigned one",
     "field names of the dumped paragraph are taken from the object itself (list(d.keys())) and must "
     "equal, ignoring case, the names before the assignment plus the assigned key if it was new",
     "which field names carry records (lists of dicts, not strings) in which class is restated by hand "
     "from the file formats (.dsc/.changes/Sources: Files, Checksums-Sha1/256/512; .buildinfo: "
     "Checksums-Md5/Sha1/Sha256/Sha512; Release: MD5Sum, SHA1, SHA256, SHA512; pdiff Index: "
-    "[X-Unmerged-]SHA1/SHA256-History/Patches/Download and SHA1/SHA256-Current); a case whose key or "
-    "neighbour has such a name in the paragraph's own class is skipped, never judged",
+    "[X-Unmerged-]SHA1/SHA256-History/Patches/Download and SHA1/SHA256-Current); a neighbour with such "
+    "a name in the paragraph's own class holds two well-formed records obtained by parsing (origins "
+    "copy / mapping are replaced by plain construction then: copying a paragraph that holds records "
+    "raises AttributeError in the unchanged library, which is not an assignment and not judged here)",
+    "a plain string assigned to a record field of the paragraph's own class: ValueError with the "
+    "paragraph unchanged is always allowed; accepted and dump() raising (any exception) counts as "
+    "'nothing written' and is not a violation (the unchanged library accepts every string there and "
+    "raises TypeError from dump() for every non-empty one); accepted and dumped -> the rule must say "
+    "accept and the generic reader must give the same names; the own-class readers and merge_fields "
+    "are not used for such a case",
+    "origin 'text': a text the parser refuses (ValueError) or that holds no paragraph gives no case; "
+    "a parsed paragraph holding a record field of its own class is skipped (records with generated "
+    "content are C12's business), and so is one holding a name that is not a Policy 5.1 field name (a "
+    "binary-mode line 'CR #X: y' is read as a field called '#X'); field names before the assignment are list(d.keys()); a text-mode "
+    "file is io.TextIOWrapper over the bytes (nothing is written to disk)",
     "update() is exercised with exactly one item, so that 'rejected leaves the paragraph unchanged' "
     "is what the statement says; setdefault on an existing key and the keyword form with a name that is "
     "not an identifier fall back to d[k]=v / update(dict) (label route:...)",
@@ -137,6 +191,30 @@ EXHAUSTIVE_FORMAT = {
              "and origin cycling",
     "thorough": "all sequences of 0..4 tokens over the same 12 tokens (22 621) x {middle key, new key}; "
                 "route, class and origin cycling",
+}
+EXHAUSTIVE_RECORDS = {
+    "quick": "all strings of 0..2 characters over 12 characters (157) x all 34 (class, record field of that "
+             "class) pairs; field absent / present with records / present in another spelling, route and "
+             "origin cycling",
+    "thorough": "all strings of 0..3 characters over 12 characters (1 885) x all 34 (class, record field of "
+                "that class) pairs; field absent / present with records / present in another spelling, "
+                "route and origin cycling",
+}
+EXHAUSTIVE_SOURCE = {
+    "quick": "paragraph A,K,Z parsed from its text in 5 line-end styles (LF, CR LF, CR LF/LF alternating "
+             "both ways, CR) x 10 input forms, then all strings of 0..2 characters over 12 characters (157) "
+             "assigned; final terminator, reader (constructor / iter_paragraphs), key, class and route cycling",
+    "thorough": "paragraph A,K,Z parsed from its text in 5 line-end styles x 10 input forms, then all strings "
+                "of 0..3 characters over 12 characters (1 885) assigned; final terminator, reader, key, class "
+                "and route cycling",
+}
+EXHAUSTIVE_STRAY = {
+    "quick": "the LF-terminated text of A,K,Z with every string of 0..3 characters over 12 characters "
+             "(1 885) inserted at 3 places (end of a first line, inside a continuation line, end of the "
+             "last line), parsed in every one of 10 input forms (strings of 3 characters: one form each), "
+             "then an ordinary value assigned to another or a new field; reader, class and route cycling",
+    "thorough": "the same with every string of 0..4 characters (22 621; strings of 3..4 characters: one "
+                "form each)",
 }
 BUDGET = {"quick": 400, "thorough": 2400}
 
@@ -206,7 +284,7 @@ def _forms(text):
     with_nl = [p + "\n" for p in parts]
     if not ended and with_nl:
         with_nl[-1] = with_nl[-1][:-1]
-    return [
+    out = [
         ("str", lambda: text),
         ("bytes", lambda: raw),
         ("StringIO", lambda: io.StringIO(text)),
@@ -214,16 +292,22 @@ def _forms(text):
         ("lines+nl", lambda: list(with_nl)),
         ("lines", lambda: list(parts)),
     ]
+    if "\r" in text:
+        # a file opened in text mode (universal newlines) differs from the above only then
+        out.append(("text-file", lambda: io.TextIOWrapper(io.BytesIO(raw), encoding="utf-8")))
+    return out
 
 
-def _readers(cls):
+def _readers(cls, generic_only=False):
     """(name, read(source, strict) -> [field names of each paragraph]) for the ways a dump of a
     ``cls`` paragraph is read back: the generic ``Deb822.iter_paragraphs`` and the paragraph's own
     class - its constructor (which reads one paragraph: the first) and its ``iter_paragraphs``."""
     klass = getattr(_lib, cls)
     out = [("Deb822.iter_paragraphs",
-            lambda src, strict: [list(p.keys()) for p in Deb822.iter_paragraphs(src, strict=strict)]),
-           ("%s(...)" % cls,
+            lambda src, strict: [list(p.keys()) for p in Deb822.iter_paragraphs(src, strict=strict)])]
+    if generic_only:
+        return out
+    out += [("%s(...)" % cls,
             lambda src, strict: [list(klass(src, strict=strict).keys())])]
     if cls != "Deb822":
         out.append(("%s.iter_paragraphs" % cls,
@@ -398,10 +482,14 @@ def make_paragraph(fields, origin, cls="Deb822"):
     """The paragraph the value is assigned into, of class ``cls``, obtained the way ``origin``
     says: the property speaks of *any* paragraph, however the object came to be."""
     klass = getattr(_lib, cls)
+    own = STRUCTURED_LOWER[effective_class(cls, origin)]
 
     def fill(d):
         for n, v in fields:
-            d[n] = G.value_string(v)     # C02 domain: must be accepted; a ValueError here escapes
+            if n.lower() in own:         # a field of records in this class: it gets records
+                d[n] = records(effective_class(cls, origin), n)
+            else:
+                d[n] = G.value_string(v)     # C02 domain: must be accepted; a ValueError here escapes
         return d
     if origin == "empty-str":
         return fill(klass(""))
@@ -434,30 +522,139 @@ def effective_class(cls, origin):
     return "Dsc" if (cls == "Deb822" and origin == "dsc-empty") else cls
 
 
+def records(cls, name):
+    """What a ``cls`` paragraph holds under its record field ``name``: two well-formed records (one,
+    for the single-record fields of a pdiff Index), obtained the ordinary way - by parsing."""
+    rec = _record_line(cls, name)
+    single = cls == "PdiffIndex" and name.lower().endswith("-current")
+    text = "%s: %s\n" % (name, rec) if single else "%s:\n %s\n %s\n" % (name, rec, rec)
+    return getattr(_lib, cls)(text)[name]
+
+
+# ------------------------------------------------------------------------------------------
+# a paragraph parsed from a given text: the text, the input form it is handed over in, the reader
+
+SRC_FORMS = ["str", "bytes", "StringIO", "BytesIO", "text-file", "text-file-untranslated", "lines+nl",
+             "lines", "bytes-lines", "iterator"]
+SRC_READERS = ["ctor", "iter"]
+
+
+def _split_keep_lf(text):
+    """The lines of ``text`` as iterating over a binary file gives them: cut after every LF."""
+    parts = text.split("\n")
+    out = [p + "\n" for p in parts[:-1]]
+    if parts[-1] != "":
+        out.append(parts[-1])
+    return out
+
+
+def source_object(text, form):
+    raw = text.encode("utf-8")
+    if form == "str":
+        return text
+    if form == "bytes":
+        return raw
+    if form == "StringIO":                   # (no newline translation: lines end at LF only)
+        return io.StringIO(text)
+    if form == "BytesIO":
+        return io.BytesIO(raw)
+    if form == "text-file":                  # a file opened in text mode: CR LF and CR arrive as LF
+        return io.TextIOWrapper(io.BytesIO(raw), encoding="utf-8")
+    if form == "text-file-untranslated":     # open(..., newline=''): lines end at LF, CR LF and CR
+        return io.TextIOWrapper(io.BytesIO(raw), encoding="utf-8", newline="")
+    if form == "lines+nl":
+        return _split_keep_lf(text)
+    if form == "lines":                      # split at LF, terminators dropped (a CR stays)
+        parts = text.split("\n")
+        return parts[:-1] if parts[-1] == "" else parts
+    if form == "bytes-lines":
+        return [l.encode("utf-8") for l in _split_keep_lf(text)]
+    if form == "iterator":
+        return iter(_split_keep_lf(text))
+    raise AssertionError(form)
+
+
+def src_ok(src):
+    return (isinstance(src, dict) and in_domain(src.get("text")) and src.get("form") in SRC_FORMS
+            and src.get("reader", "ctor") in SRC_READERS and isinstance(src.get("index", 0), int))
+
+
+def parse_source(src, cls):
+    """The paragraph of class ``cls`` the library hands out for the text, or a str saying why there
+    is none (the parser refused the text with ValueError, or found no paragraph in it)."""
+    klass = getattr(_lib, cls)
+    obj = source_object(src["text"], src["form"])
+    try:
+        if src.get("reader", "ctor") == "ctor":
+            return klass(obj)
+        got = list(klass.iter_paragraphs(obj, use_apt_pkg=False))
+    except ValueError:
+        return "source-text-refused-by-parser"
+    if not got:
+        return "source-text-holds-no-paragraph"
+    return got[src.get("index", 0) % len(got)]
+
+
+def render(fields, eols, final=True):
+    """The text of a paragraph, written by hand ("Name: first line", continuation lines as they
+    are), line i ended by eols[i % len(eols)]; the last line unterminated unless ``final``."""
+    lines = []
+    for n, v in fields:
+        val = G.value_string(v)
+        entry = "%s:%s" % (n, val) if (not val or val[0] == "\n") else "%s: %s" % (n, val)
+        lines.extend(entry.split("\n"))
+    out = ""
+    for i, l in enumerate(lines):
+        out += l + (eols[i % len(eols)] if (final or i < len(lines) - 1) else "")
+    return out
+
+
 def check(case):
-    if not (isinstance(case, dict) and fields_ok(case.get("fields")) and name_ok(case.get("key"))
+    if not (isinstance(case, dict) and name_ok(case.get("key"))
             and in_domain(case.get("value")) and isinstance(case.get("cls", "Deb822"), str)
             and case.get("cls", "Deb822") in STRUCTURED and isinstance(case.get("route", "setitem"), str)
             and case.get("route", "setitem") in ROUTES):
         return (False, ("invalid-or-out-of-domain-case-skipped",))
-    fields, key, value = case["fields"], case["key"], case["value"]
     origin = case.get("origin", "new")
+    from_text = origin == "text"
+    if not (src_ok(case.get("src")) if from_text else fields_ok(case.get("fields"))):
+        return (False, ("invalid-or-out-of-domain-case-skipped",))
+    key, value = case["key"], case["value"]
     cls = effective_class(case.get("cls", "Deb822"), origin)
     own = STRUCTURED_LOWER[cls]
-    if key.lower() in own or any(f[0].lower() in own for f in fields):
-        # the value of such a field is a list of records in this class, not a plain string
-        return (False, ("record-field-of-own-class-skipped",))
+    # a field whose value is a list of records in this class: a plain string assigned to it is
+    # judged by what can be read back (see the module docstring)
+    record_key = key.lower() in own
 
     warm_up()
     elsewhere = any(key.lower() in STRUCTURED_LOWER[c] for c in CLASSES)
     if elsewhere:
         warm_up_key(cls, key)
 
-    d = make_paragraph(fields, origin, cls)
+    if from_text:
+        src = case["src"]
+        d = parse_source(src, cls)
+        if isinstance(d, str):           # no paragraph to assign to
+            return (False, ("origin:text", d, "src-form:" + src["form"]))
+        names_before = list(d.keys())
+        if not all(name_ok(n) for n in names_before):
+            # e.g. a line "CR CR #X: y" of a file gives a field called "#X": not a field name, and
+            # what the parser makes of such lines is not this property's business
+            return (False, ("origin:text", "parsed-field-name-outside-policy-skipped"))
+        if any(n.lower() in own for n in names_before):
+            # records parsed from a generated text: their content is not this property's business
+            return (False, ("origin:text", "record-field-in-source-text-skipped"))
+    else:
+        fields = case["fields"]
+        if origin in ("copy", "mapping") and any(f[0].lower() in own for f in fields):
+            # copy() / construction from a paragraph that holds records is another matter (it
+            # fails in the unchanged library - not an assignment, not judged here)
+            origin = "new"
+        d = make_paragraph(fields, origin, cls)
+        names_before = [f[0] for f in fields]
     if type(d).__name__ != cls:      # the table above would be the wrong one for this object
         return (False, ("origin-gave-another-class-skipped",))
     before = [[k, v] for k, v in d.items()]
-    names_before = [f[0] for f in fields]
     lower = [n.lower() for n in names_before]
     if key.lower() in lower:
         pos = lower.index(key.lower())
@@ -469,9 +666,14 @@ def check(case):
         target = "new-key"
         expect_lower = lower + [key.lower()]
     route = effective_route(case.get("route", "setitem"), key, target == "new-key")
+    if record_key and route in MERGE_ROUTES:
+        route = "setitem"                # combining records with a string is not an assignment
     how = "d[%r] = %r" % (key, value) if route == "setitem" else "%s of %r: %r" % (route, key, value)
     if cls != "Deb822":
         how = "%s paragraph, %s" % (cls, how)
+    if from_text:
+        how = "paragraph parsed (%s, %s) from %s; %s" % (src["form"], src.get("reader", "ctor"),
+                                                          short(src["text"]), how)
     # merge_fields on a field the paragraph has: if that field is empty the merge with the other
     # mapping's value is that value; otherwise the two are combined, and the value the paragraph
     # ends up with is read from the paragraph itself and judged (no model of the combining)
@@ -486,8 +688,22 @@ def check(case):
         labels.append("name-carries-records-in-another-class")
     if "\r" in value:
         labels.append("cr-present")
-    if any(len(f[1][1]) > 0 for f in fields):
+    if record_key:
+        labels.append("string-for-record-field:" + ("present" if target != "new-key" else "absent"))
+    if from_text:
+        text0 = src["text"]
+        labels.append("src-form:" + src["form"])
+        labels.append("src-reader:" + src.get("reader", "ctor"))
+        if "\r\n" in text0:
+            labels.append("src-crlf")
+        if any(ch == "\r" and text0[i + 1:i + 2] != "\n" for i, ch in enumerate(text0)):
+            labels.append("src-cr-not-before-lf")
+        if any(isinstance(v, str) and "\r" in v for _k, v in before):
+            labels.append("parsed-value-holds-cr")
+    if any(isinstance(v, str) and ("\n" in v or "\r" in v) for k, v in before if k.lower() != key.lower()):
         labels.append("multiline-neighbour")
+    if any(n.lower() in own for n in names_before if n.lower() != key.lower()):
+        labels.append("record-field-neighbour")
 
     try:
         assign(d, key, value, route)
@@ -507,6 +723,10 @@ def check(case):
             raise Violation("rejected-but-state-changed",
                             "%s raised ValueError but items went from %s to %s"
                             % (how, short(before), short(after)))
+        if record_key:
+            # a string is not what such a field holds: refusing it, whatever it looks like, is fine
+            labels.append("rejected:string-for-record-field")
+            return (True, labels)
         if observed:
             # combining two non-empty values may be refused for reasons of its own (a single-line
             # with a multi-line value) or give an invalid value; either way a rejection is allowed
@@ -530,7 +750,18 @@ def check(case):
         return (True, labels)
 
     names = list(d.keys())
-    text = d.dump()
+    if record_key and isinstance(d.get(key), str):
+        # accepted - but the paragraph may be impossible to write: then nothing is read back
+        try:
+            text = d.dump()
+        except Exception as e:
+            labels.append("string-for-record-field:dump-refused:" + type(e).__name__)
+            return (True, labels)
+        labels.append("string-for-record-field:dumped")
+    else:
+        text = d.dump()
+    if not isinstance(text, str):
+        raise Violation("dump-not-a-string", "after %s dump() gave %s" % (how, short(text)))
     if observed:
         stored = d[key]
         if not isinstance(stored, str):
@@ -539,12 +770,17 @@ def check(case):
         value = stored
         verdict = rule(value)
     blank_cont = has_blank_continuation(value)
+    # "whenever no continuation line is blank": in no field of the paragraph (a paragraph parsed
+    # from a text may hold such lines in other fields)
+    any_blank_cont = blank_cont or any(isinstance(v, str) and has_blank_continuation(v) for v in d.values())
     settings = [("wsp-off", WSP_OFF)]
-    if not blank_cont:
+    if not any_blank_cont:
         settings.append(("default", None))
     bad = None
     forms = _forms(text)
-    for rname, read in _readers(cls):
+    # a string held by a record field is not in the class's record syntax: the own-class readers,
+    # which take such a field apart, are not asked
+    for rname, read in _readers(cls, generic_only=record_key and isinstance(d.get(key), str)):
         for sname, strict in settings:
             for fname, make in forms:
                 try:
@@ -578,7 +814,7 @@ def check(case):
         labels.append("pgp-armor-lookalike")
     if any(":" in l for l in split_lines(value)[1:]):
         labels.append("accepted-colon-in-continuation")
-    return (multiline, labels)
+    return (multiline or record_key or (from_text and "\r" in src["text"]), labels)
 
 
 # ------------------------------------------------------------------------------------------
@@ -689,6 +925,90 @@ def enum_route_cases(maxlen):
     return gen
 
 
+OWN_PAIRS = [(c, n) for c in CLASSES for n in STRUCTURED[c]]
+
+
+def enum_record_cases(maxlen):
+    """A plain string assigned to a field that carries records in the paragraph's own class: every
+    string of 0..maxlen characters x every (class, record field) pair; the field absent before,
+    or present with records (as the middle field, or - in another spelling - as the last one)."""
+    def gen():
+        k = 0
+        for n in range(0, maxlen + 1):
+            for seq in itertools.product(ENUM_CHARS, repeat=n):
+                v = "".join(seq)
+                k += 1
+                for j, (c, name) in enumerate(OWN_PAIRS):
+                    i = k + j
+                    state = i % 3
+                    if state == 0:
+                        fields, key = AKZ, name
+                    elif state == 1:
+                        fields, key = _akz(name), name
+                    else:
+                        fields, key = [AKZ[0], AKZ[1], [name, AKZ[2][1]]], _othercase(name)
+                    yield {"fields": fields, "key": key, "value": v, "origin": ORIGINS[(i // 3) % len(ORIGINS)],
+                           "cls": c, "route": ROUTES[(i // 2) % len(ROUTES)]}
+    return gen
+
+
+SRC_EOLS = [["\n"], ["\r\n"], ["\r\n", "\n"], ["\n", "\r\n"], ["\r"]]
+
+
+def enum_source_eol_cases(maxlen):
+    """The paragraph was parsed from a text: the A,K,Z paragraph written with every line-end style
+    (LF, CR LF, alternating either way, CR), with and without a final terminator, handed to the
+    parser in every input form; then every string of 0..maxlen characters is assigned."""
+    def gen():
+        k = 0
+        for n in range(0, maxlen + 1):
+            for seq in itertools.product(ENUM_CHARS, repeat=n):
+                v = "".join(seq)
+                k += 1
+                for e, eols in enumerate(SRC_EOLS):
+                    for f, form in enumerate(SRC_FORMS):
+                        j = k + 3 * e + f
+                        yield {"origin": "text",
+                               "src": {"text": render(AKZ, eols, final=(j % 3 != 0)), "form": form,
+                                       "reader": SRC_READERS[(j // 3) % 2]},
+                               "key": ["K", "New", "A", "k", "Z"][(k + e) % 5], "value": v,
+                               "cls": CLASSES[(k + 2 * f + e) % len(CLASSES)],
+                               "route": ROUTES[(2 * k + f + e) % len(ROUTES)]}
+    return gen
+
+
+SRC_LINES = ["A: 1", "K: 2", " 2b", "Z: 3", "\t3b", " 3c: d"]
+SRC_SPOTS = [(1, 4), (2, 2), (5, 6)]            # end of "K: 2", inside " 2b", end of the last line
+SRC_ASSIGNED = [("A", "v"), ("New", "v\n w"), ("Z", ""), ("New", "v"), ("A", "v\n\tw")]
+
+
+def enum_source_stray_cases(maxlen):
+    """The paragraph was parsed from a text that is the A,K,Z paragraph (LF line ends) with every
+    string of 0..maxlen characters inserted at the end of a first line, inside a continuation line
+    and at the end of the last line; strings of up to 2 characters meet every input form, longer
+    ones one form each.  If the parser hands out a paragraph, an ordinary value is assigned to one
+    of its other fields or to a new one."""
+    def gen():
+        k = 0
+        for n in range(0, maxlen + 1):
+            for seq in itertools.product(ENUM_CHARS, repeat=n):
+                ins = "".join(seq)
+                k += 1
+                for p, (li, col) in enumerate(SRC_SPOTS):
+                    lines = list(SRC_LINES)
+                    lines[li] = lines[li][:col] + ins + lines[li][col:]
+                    text = "\n".join(lines) + "\n"
+                    forms = range(len(SRC_FORMS)) if n <= 2 else [(k + 3 * p) % len(SRC_FORMS)]
+                    for f in forms:
+                        j = k + p + f
+                        key, v = SRC_ASSIGNED[j % len(SRC_ASSIGNED)]
+                        yield {"origin": "text",
+                               "src": {"text": text, "form": SRC_FORMS[f], "reader": SRC_READERS[(j // 5) % 2]},
+                               "key": key, "value": v, "cls": CLASSES[(k + 2 * f) % len(CLASSES)],
+                               "route": ROUTES[(k // 2 + f) % len(ROUTES)]}
+    return gen
+
+
 TOKENS = (["a", "b", "Z", "0", "9", ":", "#", " ", " ", "\t", "\r", "\n", "\n", ".", "-", "é", "漢"]
           + FORMAT_TOKENS
           + ["\n ", "\n ", "\n\t", "\n\n", "\r\n", "\r\n ", "\r ", "B: ", "B:", "\nB: ", "\n B: ", "\n#", "\n #",
@@ -730,6 +1050,8 @@ paragraph = st.one_of(st.sampled_from(NEIGHBOURS), st.sampled_from(NEIGHBOURS), 
 
 
 cls_name = st.one_of(st.just("Deb822"), st.sampled_from(CLASSES))                 # 5/9 plain Deb822
+src_eols = st.lists(st.sampled_from(["\n", "\n", "\r\n", "\r\n", "\r"]), min_size=1, max_size=3)
+STRAY = ["\r", "\r", "\r\r", "\r ", "\r\t", " \r", "\r\n", "\rB: x", "\rB:", "\r\rB: x", "\r B: x", "\r#"] + TOKENS
 route_name = st.one_of(st.just("setitem"), st.sampled_from(ROUTES), st.sampled_from(ROUTES))
 
 
@@ -737,7 +1059,8 @@ route_name = st.one_of(st.just("setitem"), st.sampled_from(ROUTES), st.sampled_f
 def gen_case(draw):
     fields = draw(paragraph)
     cls = draw(cls_name)
-    how = draw(st.sampled_from(["first", "middle", "last", "new", "othercase", "othercase", "elsewhere"]))
+    how = draw(st.sampled_from(["first", "middle", "last", "new", "othercase", "othercase", "elsewhere",
+                                "own-record" if STRUCTURED[cls] else "new"]))
     names = [f[0] for f in fields]
     lower = [n.lower() for n in names]
     if how == "first":
@@ -756,12 +1079,33 @@ def gen_case(draw):
             fields = [[key if j == i else f[0], f[1]] for j, f in enumerate(fields)]
         if draw(st.booleans()):
             key = _othercase(key)
+    elif how == "own-record":
+        # a plain string for a field that carries records in this very class: absent before, or
+        # holding records in the place of one of the fields
+        key = draw(st.sampled_from(STRUCTURED[cls]))
+        if draw(st.booleans()):
+            i = draw(st.integers(0, len(names) - 1))
+            fields = [[key if j == i else f[0], f[1]] for j, f in enumerate(fields)]
+        if draw(st.booleans()):
+            key = _othercase(key)
     else:
         key = "New-Field"
         if key.lower() in lower:
             key = "New-Field-2"
-    return {"fields": fields, "key": key, "value": draw(any_value), "origin": draw(st.sampled_from(ORIGINS)),
+    case = {"fields": fields, "key": key, "value": draw(any_value), "origin": draw(st.sampled_from(ORIGINS)),
             "cls": cls, "route": draw(route_name)}
+    if how != "own-record" and draw(st.integers(0, 3)) == 0:
+        # the paragraph is parsed from a text instead: these fields, written with a mix of line
+        # ends, with up to two tokens dropped in anywhere, handed over in one of the input forms
+        text = render(fields, draw(src_eols), draw(st.booleans()))
+        for _ in range(draw(st.integers(0, 2))):
+            at = draw(st.integers(0, len(text)))
+            text = text[:at] + draw(st.sampled_from(STRAY)) + text[at:]
+        del case["fields"]
+        case["origin"] = "text"
+        case["src"] = {"text": text, "form": draw(st.sampled_from(SRC_FORMS)),
+                       "reader": draw(st.sampled_from(SRC_READERS)), "index": draw(st.integers(0, 1))}
+    return case
 
 
 def sources(tier):
@@ -769,8 +1113,14 @@ def sources(tier):
         return [Enum("values<=4chars", enum_cases(4), EXHAUSTIVE["quick"]),
                 Enum("routes-classes<=3chars", enum_route_cases(3), EXHAUSTIVE_ROUTES["quick"]),
                 Enum("format-tokens<=3", enum_format_cases(3), EXHAUSTIVE_FORMAT["quick"]),
+                Enum("record-fields<=2chars", enum_record_cases(2), EXHAUSTIVE_RECORDS["quick"]),
+                Enum("source-line-ends<=2chars", enum_source_eol_cases(2), EXHAUSTIVE_SOURCE["quick"]),
+                Enum("source-stray<=3chars", enum_source_stray_cases(3), EXHAUSTIVE_STRAY["quick"]),
                 Hyp("token-values", gen_case(), 1200, shards=8)]
     return [Enum("values<=5chars", enum_cases(5), EXHAUSTIVE["thorough"]),
             Enum("routes-classes<=4chars", enum_route_cases(4), EXHAUSTIVE_ROUTES["thorough"]),
             Enum("format-tokens<=4", enum_format_cases(4), EXHAUSTIVE_FORMAT["thorough"]),
+            Enum("record-fields<=3chars", enum_record_cases(3), EXHAUSTIVE_RECORDS["thorough"]),
+            Enum("source-line-ends<=3chars", enum_source_eol_cases(3), EXHAUSTIVE_SOURCE["thorough"]),
+            Enum("source-stray<=4chars", enum_source_stray_cases(4), EXHAUSTIVE_STRAY["thorough"]),
             Hyp("token-values", gen_case(), 25000, shards=16)]
